@@ -144,7 +144,7 @@ def equalize(rng, sources):
 
 def gen_case(rng, seed):
     k = rng.choice([1, 2, 2, 2, 3, 3, 3])
-    sources = [mc.gen_source(rng, repeated_ok=True, positive_error=True) for _ in range(k)]
+    sources, _ = mc.gen_sources(rng, k, repeated_ok=True, positive_error=True)
     equalize(rng, sources)
     small = any(s["kind"] == "repeated" for s in sources)
     kind, corr_pos = gen_corr(rng, k)
@@ -158,7 +158,8 @@ def gen_case(rng, seed):
             "g": rng.choice([4, 5, 6, 8] if small else [4, 6, 8, 12, 16]),
             "sources": sources, "corr": [], "corr_pos": corr_pos, "corr_kind": kind,
             "defs": mc.gen_defs(rng, k, allow_div=allow_div, depth=2 if (small or k == 3) else 3, require_all=True),
-            "method": rng.choice(["global", "own"]), "small": small, "pre_read": rng.random() < 0.4}
+            "method": rng.choice(["global", "own", "global-str", "own-str"]), "small": small,
+            "pre_read": rng.random() < 0.4, "dirty": rng.random() < 0.25}
     if allow_div:
         case["okind"] = rng.choice(["coarse", "coarse", "uniform"])
     rv, re_, sa = ["read_value"], ["read_error"], ["samples"]
@@ -178,6 +179,8 @@ def gen_case(rng, seed):
                     ["recalc"], rv, re_, sa]
     elif r < 0.9:
         ops = [["set_size", ["int", rng.choice(sizes)]]] + ops[1:] + [["reset_size"], rv, re_]
+    if rng.random() < 0.3:      # another quantity over the same sources is simulated in between
+        ops.insert(rng.randint(1, len(ops)), ["sibling"])
     case["ops"] = ops
     return case
 
@@ -192,6 +195,11 @@ def features(case, run):
         tags.add("readings-source")
     if case.get("pre_read") and len(case["defs"]) > 1:
         tags.add("intermediate-read-before-use")
+    if case.get("dirty"):
+        tags.add("session-after-other-simulation")
+    big = max([abs(float.fromhex(v)) for v, _, _ in run["srcs"]] + [0.0])
+    if big and (big < 1e-6 or big > 1e6):
+        tags.add("scaled-data")
     vals = [s["value"] for s in case["sources"] if s["kind"] == "single"]
     if len(set(vals)) < len(vals):
         tags.add("equal-central-values")
@@ -295,8 +303,9 @@ class SameRowScript:
         return np.array(arr, dtype=float)
 
 
-def close(a, b, tol=Fraction(1, 10 ** 8)):
-    return abs(a - b) <= tol * (abs(a) + abs(b)) + Fraction(1, 10 ** 10)
+def close(a, b, tol=Fraction(1, 10 ** 8), scale=Fraction(1)):
+    """relative comparison; the absolute slack is tied to the size of the data ([scale]), never a fixed number"""
+    return abs(a - b) <= tol * (abs(a) + abs(b)) + tol * scale / 1000
 
 
 def check_design(case):
@@ -350,10 +359,11 @@ def check_design(case):
         for j in range(k):
             r = Fraction(1) if i == j else (rho.get((i, j), Fraction(0)) if pd else Fraction(0))
             var += coef[i] * coef[j] * r * e[i] * e[j]
-    if not close(Fraction(value), mean):
+    sc = sum(abs(a) * (abs(x) + abs(u)) for a, x, u in zip(coef, v, e)) + abs(fr(case["const"])) or Fraction(1)
+    if not close(Fraction(value), mean, scale=sc):
         return "value {} differs from the mean {} of the draws centred at the central values".format(value, float(mean))
     got = Fraction(error) ** 2 * 7 / 8
-    if not close(got, var, Fraction(1, 10 ** 7)):
+    if not close(got, var, Fraction(1, 10 ** 7), sc * sc):
         return ("offsets with identity second moments: the draws have variance {} (ddof=0) but the stated model gives a' D C D a "
                 "= {} ({})".format(float(got), float(var),
                                    "correlations as set" if pd else "uncorrelated fallback"))
@@ -370,7 +380,7 @@ def gen_design_case(rng):
     for i, j, num, den in corr_pos:
         rho[(i, j)] = rho[(j, i)] = Fraction(num, den)
     # the covariance of the draws does not depend on the order of the sources: positions are used as creation indices
-    sources = [mc.gen_source(rng, repeated_ok=True, positive_error=True) for _ in range(k)]
+    sources, _ = mc.gen_sources(rng, k, repeated_ok=True, positive_error=True)
     equalize(rng, sources)
     return {"sources": sources, "corr": corr_pos, "pd": minors_pd(k, rho),
             "coef": [fx(rng.choice([1.0, -1.0, 2.0, 0.5, -1.5, 3.0])) for _ in range(k)],
@@ -431,8 +441,9 @@ def check_samerow(case):
         return "the retrievable samples contain a non-finite outcome"
     if len(S) != len(want):
         return "{} samples retrieved, {} of the {} draws are defined".format(len(S), len(want), N)
+    sc = max([abs(y) for y in want] + [Fraction(0)]) or Fraction(1)
     for a, b in zip(S, want):
-        if not close(Fraction(a), b):
+        if not close(Fraction(a), b, scale=sc):
             alt = None
             if any(s != ee for s, ee in zip(sd, e)):
                 alt = "the spread of the readings instead of the uncertainty?"
@@ -442,9 +453,9 @@ def check_samerow(case):
         m = sum(want) / len(want)
         var = sum((y - m) ** 2 for y in want) / (len(want) - 1)
         vo, eo = mc.num_obs(value), mc.num_obs(error)
-        if vo is None or not close(fr(vo), m):
+        if vo is None or not close(fr(vo), m, scale=sc):
             return "value {} is not the mean {} of the {} finite outcomes".format(value, float(m), len(want))
-        if eo is None or not close(fr(eo) ** 2, var, Fraction(1, 10 ** 7)):
+        if eo is None or not close(fr(eo) ** 2, var, Fraction(1, 10 ** 7), sc * sc):
             return "uncertainty {} is not the sample standard deviation (ddof=1) {} of the {} finite outcomes".format(
                 error, math.sqrt(var), len(want))
     return None
@@ -455,7 +466,7 @@ def gen_samerow_case(rng, seed):
     allow_div = rng.random() < 0.4
     case = {"seed": seed, "okind": "coarse" if allow_div else rng.choice(["uniform", "two", "peak"]),
             "g": rng.choice([6, 10, 16, 40]),
-            "sources": [mc.gen_source(rng, repeated_ok=True, positive_error=True) for _ in range(k)],
+            "sources": mc.gen_sources(rng, k, repeated_ok=True, positive_error=True)[0],
             "defs": mc.gen_defs(rng, k, allow_div=allow_div, depth=3, require_all=False),
             "own": rng.choice([None, None, 7, 25]), "pre_read": rng.random() < 0.5}
     if case["pre_read"] and len(case["defs"]) == 1 and rng.random() < 0.7:
@@ -645,7 +656,9 @@ def check_sizes(case):
                         xs = [Fraction(x) for x in S]
                         m = sum(xs) / len(xs)
                         var = sum((x - m) ** 2 for x in xs) / (len(xs) - 1)
-                        if not close(Fraction(value), m) or not close(Fraction(error) ** 2, var, Fraction(1, 10 ** 7)):
+                        sc = max(abs(x) for x in xs) or Fraction(1)
+                        if not close(Fraction(value), m, scale=sc) or \
+                                not close(Fraction(error) ** 2, var, Fraction(1, 10 ** 7), sc * sc):
                             return "step {} {}: value / uncertainty are not the mean / ddof-1 deviation of the {} draws".format(
                                 idx, st, len(S))
             finally:
@@ -682,7 +695,7 @@ def gen_sizes_case(rng, seed):
                 steps.append(["reset"])
             else:
                 steps.append(["recalc"])
-    return {"seed": seed, "g": g0, "sources": [mc.gen_source(rng, repeated_ok=False, positive_error=True) for _ in range(k)],
+    return {"seed": seed, "g": g0, "sources": mc.gen_sources(rng, k, repeated_ok=False, positive_error=True)[0],
             "defs": mc.gen_defs(rng, k, allow_div=False, depth=2, require_all=False), "steps": steps}
 
 
